@@ -152,8 +152,10 @@ fn measured(bounds: &Bounds, entry: &str, tpl: &str, input: &[u8]) -> Value {
         let _ = meter::take_panics();
         let base = meter::alloc_begin();
         let t0 = meter::thread_cpu_us();
+        let u0 = meter::thread_user_us();
         let out = run_decoder(entry, tpl, input);
-        let cpu = meter::thread_cpu_us() - t0;
+        // the bound is on user-mode time (never more than the precise total)
+        let cpu = (meter::thread_user_us() - u0).min(meter::thread_cpu_us() - t0);
         let peak = meter::alloc_peak_since(base);
         (out, cpu, peak)
     };
